@@ -31,6 +31,9 @@ Theorem specifiers_decode_partial : forall pre post n rest,
   = DOk (apply_kws post (apply_kws pre mods0), n, rest).
 Proof. exact specs_decode_lemma. Qed.
 
+Theorem specifier_sets_are_the_codes : spec_sets_ok = true.
+Proof. exact spec_sets_ok_true. Qed.
+
 Theorem specifier_order_irrelevant : forall ks ks',
   forallb spec_kw ks = true -> Permutation.Permutation ks ks' -> apply_kws ks mods0 = apply_kws ks' mods0.
 Proof. exact specifier_order_irrelevant_lemma. Qed.
@@ -139,6 +142,7 @@ Proof. exact decl_sets_ok_true. Qed.
 Print Assumptions declarator_code_is_the_modelled_one.
 Print Assumptions one_entry_per_declarator_partial.
 Print Assumptions specifiers_decode_partial.
+Print Assumptions specifier_sets_are_the_codes.
 Print Assumptions specifier_order_irrelevant.
 Print Assumptions specifier_flags_are_memberships.
 Print Assumptions variable_statement_decodes_partial.
